@@ -2,14 +2,14 @@
 # verify_seed.sh <ID> [dir]: confirm a seeded change in a scratch worktree /tmp/sw/<ID>
 #  1. with the change: workspace tests pass, demonstration fails
 #  2. without the change: demonstration passes
-ID=$1; W=/tmp/sw/$ID; S=${2:-/verif/seeded/$ID}
+ID=$1; W=${SW:-/tmp/sw}/$ID; S=${2:-/verif/seeded/$ID}
 cd $W || exit 2
 git checkout -q -- .
 mkdir -p $W/SEEDED && cp $S/* $W/SEEDED/ 2>/dev/null
 git apply $S/patch.diff || { echo "patch does not apply"; exit 2; }
 touch build.rs
 echo "== tests with change"; cargo test --workspace --no-fail-fast --offline 2>&1 | grep -E "^test result|FAILED|failed|panicked" | sort | uniq -c | tail -5
-echo "== demo with change"; (cd $W && timeout 900 sh $W/SEEDED/run.sh > /tmp/sw/$ID.demo_with.log 2>&1; echo "rc=$?")
+echo "== demo with change"; (cd $W && timeout 900 sh $W/SEEDED/run.sh > $W.demo_with.log 2>&1; echo "rc=$?")
 git apply -R $S/patch.diff; touch build.rs
-echo "== demo without change"; (cd $W && timeout 900 sh $W/SEEDED/run.sh > /tmp/sw/$ID.demo_without.log 2>&1; echo "rc=$?")
+echo "== demo without change"; (cd $W && timeout 900 sh $W/SEEDED/run.sh > $W.demo_without.log 2>&1; echo "rc=$?")
 git status --short | grep -v SEEDED
